@@ -1,6 +1,6 @@
 #!/bin/bash
 # usage: mutrun.sh <file-rel> <sed-expr> <prop> [filter]   (dev helper; scratch copy under /tmp)
-HERE="$(cd "$(dirname "$0")" && pwd)"
+HERE=$(cd "$(dirname "$0")" && pwd)
 D=$(mktemp -d /tmp/clem_mut.XXXX)
 rsync -a --exclude .git --exclude logs --exclude '.logs' --exclude '.data' --exclude tests --exclude docs --exclude frontend /repo/clematis /repo/configs $D/
 sed -i "$2" $D/$1
